@@ -312,3 +312,4 @@ def run_case(case):
 
 # (appended: sub-lattices added after the seeded waves; kept out of the original RULE text for readability)
 RULE = RULE + '; the second reporter estimate.extract_model_operations is judged on the same geometries; b: 9 programs (incl. merge layers whose fan-in differs from their rank) x 24 memory options x a lattice of cost settings for extract_energy_sum / extract_energy_profile'
+RULE = RULE + '; Conv2DTranspose (stride 1) in the count lattice'
